@@ -26,6 +26,10 @@ template <> const char *Neg<sapp::Synth>::below() { return "/volume/bogus 1"; }
 template <> const char *Neg<sapp::Synth>::below_typed() { return "/osc/x 0.5"; }
 template <> const char *Neg<sapp::Synth>::int_port() { return "/volume"; }
 template <> const char *Neg<sapp::Synth>::index_beyond() { return "/osc1/x 1"; }
+template <> const char *Neg<sapp::IntSw>::below() { return "/fxtype/bogus 1"; }
+template <> const char *Neg<sapp::IntSw>::below_typed() { return "/fx/x 0.5"; }
+template <> const char *Neg<sapp::IntSw>::int_port() { return "/fxtype"; }
+template <> const char *Neg<sapp::IntSw>::index_beyond() { return "/fx1/x 1"; }
 template <> const char *Neg<sapp::Big>::below() { return "/text/bogus 1"; }
 template <> const char *Neg<sapp::Big>::below_typed() { return "/big0/x 1"; }
 template <> const char *Neg<sapp::Big>::int_port() { return "/big3"; }
@@ -256,5 +260,6 @@ int main(int argc, char **argv)
     run_app<sapp::Tree>(T ? 5 : 4, T ? 2 : 1, T ? 3 : 2);
     run_app<sapp::Synth>(T ? 7 : 6, 0, T ? 3 : 2);
     run_app<sapp::Big>(T ? 2 : 1, T ? 1 : 0, 1);
+    run_app<sapp::IntSw>(T ? 5 : 4, 0, T ? 3 : 2);
     return vp::finish();
 }
